@@ -470,6 +470,27 @@ func (in *Interp) RunOp(o *Op) (out W) {
 		out.Num(st.TotalDocumentCount())
 		out.Num(st.DocumentCount())
 		out.Num(st.SumTotalTermFrequency())
+		// CollectionStats.Merge adds component-wise; an unknown field's (all zero) answer used as the
+		// accumulator must not disturb later answers for unknown fields
+		acc, err := in.Segs[o.Slot].CollectionStats("\x00no-such-field\x00")
+		if err != nil {
+			return errOut(err)
+		}
+		if acc.TotalDocumentCount() != 0 || acc.DocumentCount() != 0 || acc.SumTotalTermFrequency() != 0 {
+			in.fail("C16", "statistics of an unknown field are not all zero: (%d,%d,%d)", acc.TotalDocumentCount(), acc.DocumentCount(), acc.SumTotalTermFrequency())
+		}
+		acc.Merge(st)
+		acc.Merge(st)
+		if acc.TotalDocumentCount() != 2*st.TotalDocumentCount() || acc.DocumentCount() != 2*st.DocumentCount() ||
+			acc.SumTotalTermFrequency() != 2*st.SumTotalTermFrequency() {
+			in.fail("C16", "CollectionStats.Merge does not add component-wise for field %q", o.F)
+		}
+		again, _ := in.Segs[o.Slot].CollectionStats(o.F)
+		if again.TotalDocumentCount() != st.TotalDocumentCount() || again.DocumentCount() != st.DocumentCount() ||
+			again.SumTotalTermFrequency() != st.SumTotalTermFrequency() {
+			in.fail("C16", "asking for the statistics of field %q again gives a different answer after Merge", o.F)
+		}
+		in.Touched["stats_merge"]++
 	case OpContains:
 		d, err := in.dict(o.Slot, o.F)
 		if err != nil {
